@@ -183,10 +183,22 @@ func (env *specEnv) eval(e SExpr) Val {
 		fc.inQuant++
 		body := asBool(env.with(x.Var, VInt{v}).eval(x.Body))
 		fc.inQuant--
-		if x.Forall {
-			return VBool{forallInt(v.S, implies(and(lc, hc), body))}
+		full := implies(and(lc, hc), body)
+		if !x.Forall {
+			full = and(lc, hc, body)
 		}
-		return VBool{existsInt(v.S, and(lc, hc, body))}
+		// re-index over absolute cells: when the bound variable only occurs added to one slice offset X,
+		// quantify over c = X + v instead, so that terms read (select A c) and match any cell term
+		if nv, nb, ok := reindexQuant(v.S, full.S, fc); ok {
+			if x.Forall {
+				return VBool{T{fmt.Sprintf("(forall ((%s Int)) %s)", nv, nb), SBool}}
+			}
+			return VBool{T{fmt.Sprintf("(exists ((%s Int)) %s)", nv, nb), SBool}}
+		}
+		if x.Forall {
+			return VBool{forallInt(v.S, full)}
+		}
+		return VBool{existsInt(v.S, full)}
 	case SCall:
 		return env.call(x)
 	}
@@ -273,6 +285,15 @@ func (env *specEnv) field(base Val, name string) Val {
 	case VPtr:
 		l := fc.ptrLoc(env.st, b)
 		root := fc.load(env.st, l)
+		if sv, ok := root.(VStruct); ok {
+			// go through load so that a lazily materialised field is remembered in the state
+			pp := promotedPath(sv.Typ, name)
+			if len(pp) == 1 && fieldType(sv.Typ, name) == nil {
+				return env.field(root, name)
+			}
+			l.path = append(append([]string{}, l.path...), pp...)
+			return fc.load(env.st, l)
+		}
 		return env.field(root, name)
 	case VStruct:
 		// promoted fields through embedded structs
@@ -496,9 +517,13 @@ func (env *specEnv) call(x SCall) Val {
 		}
 		panic(unsupported("cap() of non-slice in contract"))
 	case "rgn":
-		return VInt{arg(0).(VSlice).Rgn}
+		n := *env
+		n.keepSlice = true
+		return VInt{n.eval(x.Args[0]).(VSlice).Rgn}
 	case "off":
-		switch v := arg(0).(type) {
+		n := *env
+		n.keepSlice = true
+		switch v := n.eval(x.Args[0]).(type) {
 		case VSlice:
 			return VInt{v.Off}
 		case VStr:
@@ -542,6 +567,10 @@ func (env *specEnv) call(x SCall) Val {
 		r := arg(0).(VSlice)
 		n := *env
 		n.st = env.old
+		n.keepSlice = true
+		if n.cur == nil {
+			n.cur = env.st
+		}
 		d := n.eval(x.Args[1]).(VSlice)
 		fc.nfr++
 		k := T{fmt.Sprintf("k!%d", fc.nfr), SInt}
@@ -552,13 +581,18 @@ func (env *specEnv) call(x SCall) Val {
 		// in place: cells of the region below the old end are untouched
 		fc.nfr++
 		k2 := T{fmt.Sprintf("k!%d", fc.nfr), SInt}
-		below := forallInt(k2.S, implies(lt(k2, add(d.Off, d.Len)), eq(sel(rArr, k2), sel(dArr, k2))))
+		// in place: only cells between the old end and the capacity end may have been written
+		below := forallInt(k2.S, implies(or(lt(k2, add(d.Off, d.Len)), ge(k2, add(d.Off, d.Cap))), eq(sel(rArr, k2), sel(dArr, k2))))
 		realloc := and(le(env.old.nextR, r.Rgn), lt(r.Rgn, env.st.nextR), eq(r.Off, mkInt(0)))
 		return VBool{and(le(d.Len, r.Len), le(r.Len, r.Cap), prefix, or(and(inPlace, below), realloc))}
 	case "unchanged":
 		// unchanged(x): the window of slice x holds the same bytes as in the old state (x evaluated in old state)
 		n := *env
 		n.st = env.old
+		n.keepSlice = true
+		if n.cur == nil {
+			n.cur = env.st
+		}
 		d := n.eval(x.Args[0]).(VSlice)
 		fc.nfr++
 		k := T{fmt.Sprintf("k!%d", fc.nfr), SInt}
